@@ -40,8 +40,9 @@ LEVEL = {
             'design_ref': '5 C07',
             'note': _TB + 'xFilesFactor validity is decided on float32 bit patterns; strconv.ParseFloat is Go\'s own and its result is an input of the model.'},
     'C19': {'text': 'Theorem: parse(print t) = t for all 2^32 timestamps (calendar by a vm_compute sweep over all 49 711 days lifted to a universal statement). '
-                    'Durations, retention lists, method names: the executable model of printers and parsers is compared with the code on boundary numerals, '
-                    'malformed classes and exhaustive short strings (their round-trip theorems are listed as not yet proved in DESIGN.md).',
+                    'parse(print d) = d for all 2^31 non-negative durations; an accepted duration string is a numeral plus one unit letter and means numeral * unit <= 2^31-1; '
+                    'every valid archive list and every method name round-trips. The executable model of printers and parsers is also compared with the code on boundary numerals, '
+                    'malformed classes and exhaustive short strings.',
             'design_ref': '5 C19',
             'note': _TB + 'time.Parse/Format are modelled for the one fixed layout, including the liberal forms time.Parse accepts (one-digit hour, fractional seconds).'},
     'C08': {'text': 'Theorems on the command model: a copy that does not report success leaves an existing destination exactly as it was; a missing destination is created '
